@@ -31,6 +31,20 @@ impl Config {
 
             let project = Config::load_project(&project_dir)?;
 
+            if let Some(project_name) = &project.name {
+                if let Some((other_dir, _)) = projects
+                    .iter()
+                    .find(|(_, other)| other.name.as_ref() == Some(project_name))
+                {
+                    return Err(anyhow!(
+                        "Project name {} is used by both {} and {}",
+                        project_name,
+                        other_dir.display(),
+                        project_dir.display()
+                    ));
+                }
+            }
+
             let import_paths = project
                 .imports
                 .iter()
